@@ -136,6 +136,19 @@ Definition cmd_with (c : hcmd) (args : list harg) (subs : list hcmd) : hcmd :=
   let '(args', ctr) := add_args args 0 in
   c <| hc_args := args' |> <| hc_subs := add_subs subs ctr |>.
 
+(** [Command::next_help_heading] and the heading part of [arg_internal]
+    ([arg.help_heading.get_or_insert_with(|| self.current_help_heading.clone())]): the builder calls in
+    the order the user makes them *)
+Inductive bitem := BArg (a : harg) | BNextHeading (h : option bytes).
+Fixpoint apply_headings (items : list bitem) (current : option bytes) : list harg :=
+  match items with
+  | [] => []
+  | BArg a :: t => (if is_some (ha_heading a) then a else a <| ha_heading := current |>) :: apply_headings t current
+  | BNextHeading h :: t => apply_headings t h
+  end.
+Definition cmd_with_items (c : hcmd) (items : list bitem) (subs : list hcmd) : hcmd :=
+  cmd_with c (apply_headings items None) subs.
+
 (** ---- the build step ---- *)
 (** [Arg::_build]: the default value of the action, the number of values (the action is explicit in
     this model) *)
